@@ -87,6 +87,21 @@ theorem action_compare_and_store_is_one_step :
     locks_vikja_State_SetEntityActionIfLatest = ["entityActionMutex.Lock", "defer entityActionMutex.Unlock"] ∧
     writes_vikja_State_SetEntityActionIfLatest = ["entityActions"] := by decide
 
+/-! ### the state handed to a newcomer (`Model/Newcomer`, `Props/C01New`, F32) -/
+
+/-- the newcomer takes its place first; the session state, and each module's, is read after `Session.Exclusive` is
+    entered (the call sequence is flat: that the reads sit inside the closure is what the exploration of the real
+    handlers and the corpus schedule of F32 check); `Exclusive` holds the participants lock in write mode to the end, a
+    relay holds it in read mode to the end (`relay_is_one_critical_section`) -/
+theorem newcomer_state_is_one_critical_section :
+    locks_Session_Exclusive = ["participantMutex.Lock", "defer participantMutex.Unlock"] ∧
+    calls_Session_Exclusive.contains "f" = true ∧
+    before calls_in_RealtimeHandler_HandleParticipantJoin "session.AddParticipant" "session.Exclusive" = true ∧
+    before calls_in_RealtimeHandler_HandleParticipantJoin "session.Entities" "session.Exclusive" = false ∧
+    before calls_in_RealtimeHandler_HandleParticipantJoin "session.GetEntityComponents().ListAll" "session.Exclusive" = false ∧
+    first calls_in_vikja_handleParticipantJoin "m.currentSession.Exclusive" = some 0 ∧
+    first calls_in_odal_handleParticipantJoin "m.currentSession.Exclusive" = some 0 := by decide
+
 /-! ### one key of the component store (`Model/AddOnce`, `Props/C12Add`) -/
 
 /-- `Add` and `Delete` look the key up and change the map under one write lock held to the end; no other method of the
